@@ -26,7 +26,8 @@ def _rec_class():
             Stream.__init__(self, up)
 
         def update(self, x, who=None, metadata=None):
-            self.log.append((self.n, x))
+            ok = isinstance(metadata, list) and all(isinstance(d, dict) for d in metadata)
+            self.log.append((self.n, x, tuple(d.get("id") for d in metadata) if ok else repr(metadata)[:60]))
     return Rec
 
 
@@ -51,7 +52,7 @@ class Real:
         self.recs = dict(rm=Rec(m, "m", log), rj=Rec(j, "j", log))
         # a branch only the program references, and a sink
         self.branch = Rec(c.map(inc), "br", log)
-        self.sink = a.sink(lambda x: log.append(("snk", x)))
+        self.sink = a.sink(lambda x: log.append(("snk", x, None)))
 
     def all_nodes(self):
         out = dict(self.nodes)
@@ -88,26 +89,28 @@ class Ref:
         if d == "j" and self.kind != "union":
             self.jstate.pop(u)
 
-    def push(self, node, val, frm, out):
+    def push(self, node, item, frm, out):
+        """item = (value, metadata ids)"""
+        val, ids = item
         if node in ("rm", "rj", "br", "snk"):
-            out.append((node[1:] if node in ("rm", "rj") else node, val))
+            out.append((node[1:] if node in ("rm", "rj") else node, val, None if node == "snk" else ids))
             return
         if node in ("m", "brm"):
-            outs = [inc(val)]
+            outs = [(inc(val), ids)]
         elif node == "j":
             outs = []
             if self.kind == "union":
-                outs = [val]
+                outs = [item]
             elif self.kind == "zip":
-                self.jstate[frm].append(val)
+                self.jstate[frm].append(item)
                 outs = self.zip_drain()      # every complete tuple, heads first
             else:
-                self.jstate[frm] = ("v", val)
+                self.jstate[frm] = item
                 ups = self.ups["j"]
                 if all(self.jstate[u] is not None for u in ups) and (self.emit_on is None or frm in self.emit_on):
-                    outs = [tuple(self.jstate[u][1] for u in ups)]
+                    outs = [(tuple(self.jstate[u][0] for u in ups), sum((self.jstate[u][1] for u in ups), ()))]
         else:
-            outs = [val]
+            outs = [item]
         for o in outs:
             for d in list(self.edges.get(node, [])):
                 self.push(d, o, node, out)
@@ -116,12 +119,13 @@ class Ref:
         outs = []
         ups = self.ups["j"]
         while ups and all(self.jstate[u] for u in ups):
-            outs.append(tuple(self.jstate[u].pop(0) for u in ups))
+            heads = [self.jstate[u].pop(0) for u in ups]
+            outs.append((tuple(h[0] for h in heads), sum((h[1] for h in heads), ())))
         return outs
 
-    def emit(self, src, val):
+    def emit(self, src, val, ids=()):
         out = []
-        self.push(src, val, None, out)
+        self.push(src, (val, tuple(ids)), None, out)
         return out
 
     def reachable(self, start):
@@ -201,8 +205,14 @@ def run(kind, hist):
             last = i == len(hist) - 1
             try:
                 if op[0] == "emit":
-                    exp = ref.emit(op[1], op[2])
-                    real.nodes[op[1]].emit(op[2])
+                    ids = ((op[1], op[2]),) if op[2] % 2 == 1 else ()      # odd values carry one metadata dict
+                    exp = ref.emit(op[1], op[2], ids)
+                    if ids:
+                        real.nodes[op[1]].emit(op[2], metadata=[{"id": ids[0]}])
+                    else:
+                        real.nodes[op[1]].emit(op[2])
+                    if last and [e[:2] for e in log] == [e[:2] for e in exp] and list(log) != exp:
+                        return ("md-content", _site([e[:2] + (0,) if False else e for e in log], exp), dict(got=list(log), want=exp, op=op)), None
                     if last and list(log) != exp:
                         missing = [e for e in exp if e not in log]
                         clause = "stuck-tuple" if (ref.kind == "zip" and missing and all(e[0] == "j" for e in missing) and
@@ -238,7 +248,7 @@ def run(kind, hist):
                 if op[0] != "emit" and log:
                     # the only deliveries an edit may cause: zip handing on tuples that the edit
                     # completed (the other accepted repair is to hand them on at the next arrival)
-                    exp = [("j", t) for t in ref.zip_drain()] if ref.kind == "zip" else []
+                    exp = [("j", t[0], t[1]) for t in ref.zip_drain()] if ref.kind == "zip" else []
                     if list(log) != exp and last:
                         return ("delivery", "zip", dict(got=list(log), want=exp, op=op, note="delivery during an edit")), None
             except Exception as e:   # noqa
